@@ -37,6 +37,11 @@ def cases(draw, name, max_len):
             # "areiter": an async ITERABLE whose __aiter__ calls are logged ("open"): chain opens its k-th argument
             # only when it gets there
             s["fl"] = draw(st.sampled_from(["aclass", "aclass", "aeager", "areiter", "aeagerstop"]))
+        plain = [s for s in case["srcs"] if s.get("alias") is None and not any(o.get("alias") is not None for o in case["srcs"])]
+        if len(case["srcs"]) >= 2 and plain and draw(st.integers(0, 3)) == 0:
+            # one of several sources is a real ``range`` (sized, immutable - nothing to observe in it): how far the
+            # OTHER sources are read must not depend on what the tool could know about this one
+            plain[draw(st.integers(0, len(plain) - 1))]["fl"] = "range"
     if name == "chain_from_iterable":
         case["params"]["outer"]["fl"] = "aclass"
     for spec in case["fns"].values():
